@@ -63,7 +63,7 @@ theorem replaceInline_nofuel (text : Str) (e : Expand) : Safe NoFuel (replaceInl
   have hm := macrosRender_nofuel rec env hs
   unfold replaceInline; safe_go
 
-theorem replaceGroupText_nofuel (g : Str) (sp : Bool) (e : Expand) : Safe NoFuel (replaceGroupText rec env g sp e) := by
+theorem replaceGroupText_nofuel (g : Str) (sp : Bool) (e : Expand) (ia : Bool) : Safe NoFuel (replaceGroupText rec env g sp e ia) := by
   have hr := replaceInline_nofuel rec env hs
   unfold replaceGroupText; safe_go
 
